@@ -27,13 +27,21 @@ func init() {
 	props["C07"] = genC07
 }
 
-const c0607Watchdog = 10 * time.Second
+const (
+	c0607Watchdog     = 10 * time.Second // total running time of the call under test
+	c0607IdleWatchdog = 4 * time.Second  // time without any event at its boundary
+	// A hung call is a violation on its own.  Once this many generated cases have hung the
+	// generator stops (and says so in the evidence): a tree that deadlocks on a whole class of
+	// inputs must be reported quickly instead of spending a watchdog period on every member.
+	c0607HangBudget = 3
+)
 
 // ---------------------------------------------------------------- C06 runner
 
-// input: (view (openfail-path ...) ((( when id ) ...) ending) capacity chunklen walkfail)
+// input: (view (openfail-path ...) ((( when id ) ...) ending) capacity chunklen walkfail [transport])
 //
 //	walkfail: 0 = none, j+1 = the walk fails before reporting entry j (j = #entries: after the last)
+//	transport: see c0607_transport.go (absent = 0)
 //
 // output: (trace hang misuse)   hang: 0 returned, 1 returned only after tear-down, 2 never returned;
 //
@@ -57,13 +65,16 @@ func run0601(in Sx) (out Sx) {
 	capacity := in.L[3].Int()
 	chunk := in.L[4].Int()
 	walkfail := in.L[5].Int()
+	transport := 0
+	if len(in.L) > 6 {
+		transport = in.L[6].Int()
+	}
 
 	ctx, cancel := context.WithCancel(context.Background())
 	defer cancel()
-	sp := NewStreamPair(ctx, capacity)
-	sp.NoLogData = true
+	sp := c0607NewWire(ctx, transport, capacity, true)
 	tap := &Tap{}
-	conn := &tapStream{inner: sp.A, tap: tap}
+	conn := c0607TapOn(sp.Real, tap)
 	mfs := &MemFS{Roots: view, ChunkLen: chunk}
 	mfs.OpenHook = func(p string) error {
 		if openfail[p] {
@@ -96,14 +107,12 @@ func run0601(in Sx) (out Sx) {
 		err := fsutil.Send(ctx, conn, mfs, tap.Progress)
 		tap.Return(err == nil)
 	}()
-	rr := startRefReceiver(sp.B, script, func() { sp.TearDown(nil) })
+	rr := startRefReceiver(sp.Peer, script, sp.TearDown)
 	hang := 0
-	select {
-	case <-done:
-	case <-time.After(c0607Watchdog):
+	if !c0607Await(done, tap) {
 		hang = 1
 		tap.Fault()
-		sp.TearDown(nil)
+		sp.TearDown()
 		cancel()
 		select {
 		case <-done:
@@ -112,14 +121,14 @@ func run0601(in Sx) (out Sx) {
 		}
 	}
 	evs := tap.Events()
-	sp.TearDown(nil)
+	sp.TearDown()
 	cancel()
 	select {
 	case <-rr.done:
 	case <-time.After(3 * time.Second):
 	}
 	tr, late := traceSx(evs)
-	return L(tr, NI(hang), NI(int(sp.Overlaps)+late))
+	return L(tr, NI(hang), NI(sp.Overlaps()+late))
 }
 
 // ---------------------------------------------------------------- C07 runner
@@ -159,7 +168,7 @@ func diskFilesSx(dir string) Sx {
 	return L(N(1), L(fs...))
 }
 
-// input: (view prior (unchanged-path ...) (merge differ) (chunkmode chunk statweight pick ending closeafter seed) capacity progress)
+// input: (view prior (unchanged-path ...) (merge differ) (chunkmode chunk statweight pick ending closeafter seed) capacity progress [transport])
 //
 //	view: what the reference sender announces (walk order) and serves; prior: what the
 //	destination holds before the transfer; unchanged: paths whose prior entry equals the
@@ -186,6 +195,10 @@ func run0701(in Sx) (out Sx) {
 		Ending: sc[4].Int(), CloseAfter: sc[5].Int(), Seed: sc[6].U64()}
 	capacity := in.L[5].Int()
 	withProgress := in.L[6].IsTrue()
+	transport := 0
+	if len(in.L) > 7 {
+		transport = in.L[7].Int()
+	}
 
 	dest := WorkDir("c07-")
 	defer os.RemoveAll(dest)
@@ -196,10 +209,9 @@ func run0701(in Sx) (out Sx) {
 
 	ctx, cancel := context.WithCancel(context.Background())
 	defer cancel()
-	sp := NewStreamPair(ctx, capacity)
-	sp.NoLogData = true
+	sp := c0607NewWire(ctx, transport, capacity, false)
 	tap := &Tap{}
-	conn := &tapStream{inner: sp.B, tap: tap}
+	conn := c0607TapOn(sp.Real, tap)
 	opt := fsutil.ReceiveOpt{Merge: merge, Differ: differ}
 	if withProgress {
 		opt.ProgressCb = func(int, bool) {}
@@ -217,14 +229,12 @@ func run0701(in Sx) (out Sx) {
 		tap.Return(err == nil)
 	}()
 	atFin := L(N(0), L())
-	rs := startRefSender(sp.A, entries, script, func() { atFin = diskFilesSx(dest) }, func() { sp.TearDown(nil) })
+	rs := startRefSender(sp.Peer, entries, script, func() { atFin = diskFilesSx(dest) }, sp.TearDown)
 	hang := 0
-	select {
-	case <-done:
-	case <-time.After(c0607Watchdog):
+	if !c0607Await(done, tap) {
 		hang = 1
 		tap.Fault()
-		sp.TearDown(nil)
+		sp.TearDown()
 		cancel()
 		select {
 		case <-done:
@@ -233,7 +243,7 @@ func run0701(in Sx) (out Sx) {
 		}
 	}
 	evs := tap.Events()
-	sp.TearDown(nil)
+	sp.TearDown()
 	cancel()
 	select {
 	case <-rs.done:
@@ -341,6 +351,28 @@ func fixLinkChains(roots []*MNode) {
 	}
 }
 
+// the transport of one case (c0607_transport.go): the buffer-reusing ones and the library's
+// own protostream together get most of the volume
+func c0607PickTransport(r *Rng) int {
+	switch k := r.Intn(100); {
+	case k < 25:
+		return 0
+	case k < 40:
+		return 1
+	case k < 60:
+		return 2
+	case k < 75:
+		return 3
+	default:
+		return 4
+	}
+}
+
+// the same case over another transport
+func c0607Over(in Sx, transport int) Sx {
+	return L(append(append([]Sx{}, in.L...), NI(transport))...)
+}
+
 func isReg(st *types.Stat) bool { return os.FileMode(st.Mode)&os.ModeType == 0 }
 
 func shuffle[T any](r *Rng, xs []T) {
@@ -368,7 +400,7 @@ func genC06(g *Gen) {
 		g.Emit(0x0601, in, true, "directed")
 	}
 	n := g.Vol(500, 6000)
-	misuse, succeeded := 0, 0
+	misuse, succeeded, hangs := 0, 0, 0
 	for i := 0; i < n; i++ {
 		r := g.Rng
 		view, cls := genC06View(r)
@@ -514,8 +546,16 @@ func genC06(g *Gen) {
 			opsSx[k] = L(NI(op.When), N(uint64(op.ID)))
 			distinct[op.ID] = true
 		}
-		in := L(ViewSx(view), L(openfail...), L(L(opsSx...), NI(ending)), NI(capacity), NI(chunk), NI(walkfail))
+		transport := c0607PickTransport(r)
+		cls += fmt.Sprintf("/t%d", transport)
+		in := L(ViewSx(view), L(openfail...), L(L(opsSx...), NI(ending)), NI(capacity), NI(chunk), NI(walkfail), NI(transport))
 		out := g.Emit(0x0601, in, len(distinct) >= 2 || bad != "", cls)
+		if len(out.L) == 3 && out.L[1].Kind == 'n' && out.L[1].Int() != 0 {
+			if hangs++; hangs >= c0607HangBudget {
+				g.Note("generator_stopped_after_hung_runs", hangs)
+				break
+			}
+		}
 		if len(out.L) == 3 && out.L[2].Kind == 'n' && out.L[2].Int() > 0 {
 			misuse++
 		}
@@ -589,7 +629,7 @@ func genC07(g *Gen) {
 		g.Emit(0x0701, in, true, "directed")
 	}
 	n := g.Vol(500, 6000)
-	late, succeeded := 0, 0
+	late, succeeded, hangs := 0, 0, 0
 	nHuge := g.Vol(2, 12)
 	for i := 0; i < n; i++ {
 		r := g.Rng
@@ -656,10 +696,19 @@ func genC07(g *Gen) {
 		for k, p := range unchanged {
 			us[k] = S(p)
 		}
+		progress := r.Chance(30)
+		transport := c0607PickTransport(r)
+		cls += fmt.Sprintf("/t%d", transport)
 		in := L(ViewSx(view), ViewSx(prior), L(us...), L(Bool(merge), NI(differ)),
 			L(NI(sc.ChunkMode), NI(sc.Chunk), NI(sc.StatWeight), NI(sc.Pick), NI(sc.Ending), NI(sc.CloseAfter), N(sc.Seed)),
-			NI(capacity), Bool(r.Chance(30)))
+			NI(capacity), Bool(progress), NI(transport))
 		out := g.Emit(0x0701, in, nreg >= 2, cls)
+		if len(out.L) == 5 && out.L[1].Kind == 'n' && out.L[1].Int() != 0 {
+			if hangs++; hangs >= c0607HangBudget {
+				g.Note("generator_stopped_after_hung_runs", hangs)
+				break
+			}
+		}
 		if len(out.L) == 5 && out.L[4].Kind == 'n' && out.L[4].Int() > 0 {
 			late++
 		}
@@ -715,7 +764,15 @@ func directedC06() []Sx {
 	v := directedView
 	all := [][2]int{{2, 1}, {3, 2}, {4, 3}, {6, 5}}
 	noFirst := []*MNode{dirNode("d", fileNode("b", ""), linkNode("h", "d/a", "abc"), linkNode("i", "d/a", "abc")), fileNode("z", "zz")}
-	return []Sx{
+	var over []Sx
+	for t := 1; t < c0607Transports; t++ {
+		over = append(over,
+			c0607Over(c06Input(v(), nil, all, 0, 0, 0, 0), t),                                      // every file as its STAT arrives
+			c0607Over(c06Input(v(), nil, [][2]int{{7, 5}, {7, 3}, {7, 1}, {7, 2}}, 0, 8, 1, 0), t), // burst after the end marker
+			c0607Over(c06Input(v(), nil, all, 2, 0, 0, 0), t),                                      // receiver sends ERR (its text is quoted by Send)
+		)
+	}
+	return append([]Sx{
 		c06Input(v(), nil, all, 0, 0, 0, 0),                                          // every file as its STAT arrives, unbuffered stream
 		c06Input(v(), nil, [][2]int{{7, 5}, {7, 3}, {7, 1}, {7, 2}}, 0, 8, 1, 0),     // after the end marker, reverse order, 1-byte reads
 		c06Input(v(), nil, [][2]int{{2, 1}, {2, 1}}, 0, 1, 0, 0),                     // duplicate id
@@ -732,7 +789,7 @@ func directedC06() []Sx {
 		c06Input(v(), nil, all, 3, 0, 0, 0),                                          // FIN before the data has arrived
 		c06Input(v(), nil, all, 4, 0, 0, 0),                                          // receiver closes right after its requests
 		c06Input(nil, nil, nil, 0, 0, 0, 0),                                          // empty view
-	}
+	}, over...)
 }
 
 func c07Input(view, prior []*MNode, unchanged []string, merge bool, differ int, sc refSendScript, capacity int, progress bool) Sx {
@@ -752,7 +809,16 @@ func directedC07() []Sx {
 	for i := 0; i < 12; i++ {
 		many = append(many, fileNode(fmt.Sprintf("f%02d", i), fmt.Sprintf("content-%d", i)))
 	}
-	return []Sx{
+	var over []Sx
+	for t := 1; t < c0607Transports; t++ {
+		over = append(over,
+			c0607Over(c07Input(v(), nil, nil, false, 0, refSendScript{Chunk: 1, StatWeight: 100, Seed: 1}, 0, false), t),                         // all STATs first: every path is retained across many frames
+			c0607Over(c07Input(v(), nil, nil, false, 0, refSendScript{Chunk: 2, StatWeight: 0, Pick: 2, Seed: 2}, 0, true), t),                   // DATA frames between the STATs
+			c0607Over(c07Input(many, nil, nil, false, 0, refSendScript{Chunk: 4, StatWeight: 50, Pick: 3, Seed: 12}, 2, false), t),               // 12 files, round robin
+			c0607Over(c07Input(v(), prior, []string{"d/a"}, false, 0, refSendScript{Chunk: 100, StatWeight: 50, Pick: 3, Seed: 4}, 1, false), t), // with a prior destination
+		)
+	}
+	return append([]Sx{
 		c07Input(v(), nil, nil, false, 0, refSendScript{Chunk: 1, StatWeight: 100, Seed: 1}, 0, false),       // all STATs first, 1-byte chunks
 		c07Input(v(), nil, nil, false, 0, refSendScript{Chunk: 2, StatWeight: 0, Pick: 2, Seed: 2}, 0, true), // DATA preferred over STAT, newest id first
 		c07Input(v(), nil, nil, false, 0, refSendScript{ChunkMode: 1, Chunk: 3, StatWeight: 50, Pick: 0, Seed: 3}, 64, false),
@@ -764,5 +830,5 @@ func directedC07() []Sx {
 		c07Input(v(), nil, nil, false, 0, refSendScript{Chunk: 100, StatWeight: 50, Ending: 1, Seed: 9}, 0, false),                   // FIN not echoed: EOF instead
 		c07Input(many, nil, nil, false, 0, refSendScript{Chunk: 100, StatWeight: 100, Ending: 3, CloseAfter: 6, Seed: 10}, 2, false), // ERR while requests are outstanding
 		c07Input(nil, nil, nil, false, 0, refSendScript{Chunk: 1, StatWeight: 50, Seed: 11}, 0, false),                               // empty transfer
-	}
+	}, over...)
 }
